@@ -157,3 +157,43 @@ Proof.
   apply Rmult_le_compat_r; [lra|]. unfold_eos.
   interval with (i_bisect t, i_bisect r, i_depth 20).
 Qed.
+
+(* ---- quantitative facts for continuity of Z in pressure (C06) ---- *)
+Definition Zcode_slope (t r : R) := dZeos_pub t r - delta t.
+Definition Zpub_slope (t r : R) := dZeos_pub t r.
+Lemma Zcode_slope_derive t r : t <> 0 -> is_derive (Zeos C0code t) r (Zcode_slope t r).
+Proof. apply dZeos_code_is_derivative. Qed.
+Lemma Zpub_slope_derive t r : t <> 0 -> is_derive (Zeos C0pub t) r (Zpub_slope t r).
+Proof. apply dZeos_pub_is_derivative. Qed.
+
+(* the root of the validity rectangle never has reduced density above 3: rho Z(rho) at 3 exceeds
+   the largest right-hand side 0.27 * 30 / 1.05 *)
+Lemma rhoZ_code_at_3 t : 105 / 100 <= t <= 3 -> 8 < rhoZ C0code t 3.
+Proof. intros. unfold rhoZ. unfold_eos. interval with (i_bisect t, i_depth 20). Qed.
+Lemma rhoZ_pub_at_3 t : 105 / 100 <= t <= 3 -> 8 < rhoZ C0pub t 3.
+Proof. intros. unfold rhoZ. unfold_eos. interval with (i_bisect t, i_depth 20). Qed.
+
+Definition rhoZ_code_slope_lb := 1 / 2.
+Definition rhoZ_pub_slope_lb := 7 / 100.
+Lemma rhoZ_code_slope_lb_pos : 0 < rhoZ_code_slope_lb.  Proof. unfold rhoZ_code_slope_lb; lra. Qed.
+Lemma rhoZ_pub_slope_lb_pos : 0 < rhoZ_pub_slope_lb.  Proof. unfold rhoZ_pub_slope_lb; lra. Qed.
+Lemma drhoZ_code_lb t r : 105 / 100 <= t <= 3 -> 0 <= r <= 3 -> rhoZ_code_slope_lb <= drhoZ_code t r.
+Proof.
+  intros. unfold rhoZ_code_slope_lb, drhoZ_code, dZeos_pub, delta. unfold_eos.
+  interval with (i_bisect t, i_bisect r, i_depth 40).
+Qed.
+Lemma drhoZ_pub_lb t r : 105 / 100 <= t <= 3 -> 0 <= r <= 3 -> rhoZ_pub_slope_lb <= drhoZ_pub t r.
+Proof.
+  intros. unfold rhoZ_pub_slope_lb, drhoZ_pub, dZeos_pub. unfold_eos.
+  interval with (i_bisect t, i_bisect r, i_depth 40).
+Qed.
+Lemma Zcode_slope_bound t r : 105 / 100 <= t <= 3 -> 0 <= r <= 3 -> Rabs (Zcode_slope t r) <= 22.
+Proof.
+  intros. unfold Zcode_slope, dZeos_pub, delta. unfold_eos.
+  interval with (i_bisect t, i_bisect r, i_depth 40).
+Qed.
+Lemma Zpub_slope_bound t r : 105 / 100 <= t <= 3 -> 0 <= r <= 3 -> Rabs (Zpub_slope t r) <= 22.
+Proof.
+  intros. unfold Zpub_slope, dZeos_pub. unfold_eos.
+  interval with (i_bisect t, i_bisect r, i_depth 40).
+Qed.
